@@ -164,10 +164,6 @@ Definition is_unit_frac (e : sexpr) : bool := match e with SRat p q => (p =? 1) 
 Definition unit_frac_den (e : sexpr) : Z := match e with SRat _ q => q | _ => 1 end.
 Definition is_mul_or_pow (e : sexpr) : bool :=
   match e with SMul _ _ | SPow _ _ => true | _ => false end.
-Definition nargs (e : sexpr) : nat :=
-  match e with
-  | SAdd ts => List.length ts | SMul _ fs => List.length fs | SPow _ _ => 2%nat | SFun _ a => List.length a | _ => 0%nat
-  end.
 
 (* classification of one ordered factor (the loop "for item in args" of _print_Mul);
    P is the printer for sub-expressions: P flip e *)
@@ -176,7 +172,7 @@ Definition item_of (P : bool -> sexpr -> list token) (f : sexpr) : mitem :=
   | SPow b ex =>
       if negexp ex then
         match eshape_of false ex with
-        | ENegOne => MDen (P false b, prec b) (negb (Nat.eqb (nargs b) 1) && is_mul_or_pow b)
+        | ENegOne => MDen (P false b, prec b) (is_mul_or_pow b)   (* pow_paren: a Mul or Pow always has more than one arg *)
         | _ =>
             if is_unit_frac b then
               (* apow uses as_base_exp: a base 1/q becomes q with the exponent negated, and apow negates it
